@@ -43,9 +43,13 @@ type caseT struct {
 	Variant    string `json:"variant,omitempty"`
 	From       string `json:"relocate_from,omitempty"`
 	To         string `json:"relocate_to,omitempty"`
+	IDSet      string `json:"identity_set,omitempty"` // "" = the three fixture identities, "long" = longIDs
 }
 
 func pairKind(a, b int) string {
+	if len(ids[a]) >= 64 && len(ids[b]) >= 64 && bytes.Equal(ids[a][:48], ids[b][:48]) {
+		return "long-ids-differing-at-the-end"
+	}
 	if bytes.HasPrefix(ids[a], ids[b]) || bytes.HasPrefix(ids[b], ids[a]) {
 		return "prefix-related-ids"
 	}
